@@ -51,7 +51,7 @@ inductive Value (R : Type)
   | dbl (x : R)
   | int (n : Int)
   | bool (b : Bool)
-  deriving Repr, Inhabited
+  deriving Repr, Inhabited, DecidableEq
 
 /-- what the reader does instead of returning -/
 inductive Err
@@ -64,11 +64,17 @@ inductive Err
   | emptyText (tag : String)         -- `std::string(nullptr)` inside the noexcept get_string_value: std::terminate (C17, DESIGN §7 row 10)
   deriving DecidableEq, Repr, Inhabited
 
-/-- the opaque conversions -/
+/-- the opaque conversions, and what `get_string_value` does with an element that has no text
+    (`<tag></tag>`, GetText() = nullptr): `emptyIsMissing = false` is the code that constructs
+    `std::string(nullptr)` inside a noexcept function (std::terminate, DESIGN §7 row 10);
+    `emptyIsMissing = true` is the repaired code (fixes/C17-empty-xml-element.diff) that returns
+    `std::nullopt`, so that the caller throws its "markup was not found" exception.  The flag is
+    extracted from the source (`Gen.emptyIsMissing`). -/
 structure Parsers (R : Type) where
   stod  : String → Option R
   stoi  : String → Option Int
   const : String → R
+  emptyIsMissing : Bool := false
 
 abbrev Children := List (String × String)
 abbrev Record (R : Type) := List (String × Value R)
@@ -96,7 +102,7 @@ variable {R : Type} [Lit R] [LT R] [LE R] [DecidableLT R] [DecidableLE R]
 
 /-- conversion of the text of one element (the right-hand side of the assignment) -/
 def readValue (P : Parsers R) (e : Entry) (text : String) : Except Err (Value R) :=
-  if text = "" then .error (.emptyText e.tag) else
+  if text = "" then .error (if P.emptyIsMissing then .missingTag e.tag else .emptyText e.tag) else
   let t := if e.lower then lowerS text else text
   match e.kind with
   | .str => .ok (.str t)
